@@ -24,7 +24,7 @@ def sockItemOk (it : String) : Bool :=
 
 def sockEvOk (t : String) : Bool :=
   ["up", "cut", "hold", "holdAB", "holdBA", "rel", "down", "open", "rsA", "rsB", "cutpdAB", "cutpdBA"].contains t
-  || sockNumTok "sA" t || sockNumTok "sB" t || sockNumTok "p" t || sockNumTok "w" t
+  || sockNumTok "sA" t || sockNumTok "sB" t || sockNumTok "cA" t || sockNumTok "cB" t || sockNumTok "p" t || sockNumTok "w" t
   || (t.startsWith "jraw:" && isHexStr (t.drop 5).toString)
   || (t.startsWith "jmsg:" && isHexStr (t.drop 5).toString)
   || (t.startsWith "jses:" && ((t.drop 5).toString.splitOn "+").all sockItemOk)
